@@ -272,6 +272,7 @@ func (e *Engine) newExec(fn *ssa.Function, quiet bool) *FnExec {
 			fe.pkg = p.Pkg.Pkg
 		}
 	}
+	fe.hw = "HW"
 	fe.script.Decls = append(fe.script.Decls, "(declare-const HW Int)")
 	fe.assume("(< 1000 HW)", "heap watermark above sentinel ids")
 	return fe
@@ -613,4 +614,37 @@ func (e *Engine) ifaceSig(key string) *types.Signature {
 		}
 	}
 	return nil
+}
+
+// globalLitLen: the number of elements of the composite literal a package-level slice variable is initialised with.
+func (e *Engine) globalLitLen(g *ssa.Global) (int, bool) {
+	if g.Pkg == nil {
+		return 0, false
+	}
+	var found int
+	ok := false
+	packages.Visit(e.pkgs, nil, func(p *packages.Package) {
+		if ok || p.Types != g.Pkg.Pkg {
+			return
+		}
+		for _, f := range p.Syntax {
+			for _, d := range f.Decls {
+				gd, isG := d.(*ast.GenDecl)
+				if !isG || gd.Tok != token.VAR {
+					continue
+				}
+				for _, sp := range gd.Specs {
+					vs := sp.(*ast.ValueSpec)
+					for i, n := range vs.Names {
+						if n.Name == g.Name() && i < len(vs.Values) {
+							if cl, isC := vs.Values[i].(*ast.CompositeLit); isC {
+								found, ok = len(cl.Elts), true
+							}
+						}
+					}
+				}
+			}
+		}
+	})
+	return found, ok
 }
